@@ -225,7 +225,7 @@ def run(w, rep, tier):
     rep.rule("C02.ode", "radial ODE sum_k x_k dE/dx_k = wedge(x) E on the closed form of to_Matrix(exp(x)) (lemma L13: with E(0)=I this characterises expm); every if_else branch")
     rep.rule("C02.inv", "E(-x) E(x) = I on the closed form")
     rep.rule("C02.form", "parameter-level forms: Rodrigues, half-angle quaternion, tan(theta/4) MRP, SE(2) V-matrix, SE(3) translation through J_l; coefficients located in the series table by formula, argument kind theta vs theta^2 included")
-    rep.rule("C02.flow", "Euler exp is from_Dcm(SO3Dcm.exp)")
+    rep.rule("C02.flow", "Euler exp is from_Dcm(SO3Dcm.exp); the Euler from_Matrix it ends in tests both poles with a band of half width <= 1e-3 rad")
     rep.rule("C02.table", "necessary for the branch below the switch: every coefficient's small-argument branch is the default order-6 Taylor polynomial of the SAME formula, switched at |x| < 1e-3 (shared with C06.table)")
     rep.rule("C02.nilpotent", "R^n: algebra matrices multiply to zero hence expm = I + wedge")
     rep.rule("C02.direct-product", "direct-product exp is factor-wise on the factors' slices")
@@ -236,6 +236,10 @@ def run(w, rep, tier):
     from .c06 import check_table
     check_table(w, rep, rule="C02.table")
     check_shadow_invariance(w, rep)
+    # Euler exp = from_Dcm(SO3Dcm.exp(x)) lands in SO3EulerB321.from_Matrix: outside the documented 1e-3 rad gimbal band the
+    # regular branch must be taken (rule shared with C07.euler; seeded C02-5 widened the band to 2.6 degrees)
+    from .c07 import check_euler_band_rule
+    check_euler_band_rule(w, rep, "C02.flow")
     check_rn_nilpotent(w, rep)
     check_direct_product_exp(w, rep)
     rep.floor("C02.ode", 11)
